@@ -33,7 +33,9 @@ Record kst := { k_now : Z;
                 k_perms : list (addr * N);            (* (client, ip) *)
                 k_ann : list (N * (addr * Z));        (* announced cid -> (owning client, announced at) *)
                 k_bound : list N;                     (* cids bound so far *)
-                k_gone : list N }.                    (* cids whose peer connection the server closed *)
+                k_gone : list N;                      (* cids whose peer connection the server closed *)
+                k_relays : list (addr * addr);        (* client -> relayed address *)
+                k_open : list (N * (addr * addr * Z)) }.   (* unbound, still open: cid -> (client, peer, announced at) *)
 
 Definition ann_get (k : N) (l : list (N * (addr * Z))) : option (addr * Z) :=
   match find (fun p => (fst p =? k)%N) l with Some p => Some (snd p) | None => None end.
@@ -70,14 +72,37 @@ Definition k_step (st : kst) (o : tstep_obs) : bool * kst :=
                      | TDeliver k toc d, TData k' fromc d' => (k =? k')%N && Bool.eqb toc (negb fromc) && beqb d d' && existsb (N.eqb k) (k_bound st)
                      | TDeliver _ _ _, _ => false
                      | _, _ => true end) acts in
-  (* a second Connect to a peer that already has a live connection in this allocation: 446, never a second id *)
+  (* unbound connections: opened by announcements, ended by a bind, by the server closing them, by the allocation ending *)
+  let relay_of c := match find (fun p => addr_eqb (fst p) c) (k_relays st) with Some p => Some (snd p) | None => None end in
+  let open1 := map (fun p => (fst p, (fst (snd p), match ts_ev o with TConnect _ _ _ (Some pr) _ _ _ => pr | TPeerConn _ pr _ => pr | _ => fst (snd p) end, snd (snd p)))) anns
+               ++ k_open st in
+  let open2 := filter (fun e => negb (existsb (fun a => match a with TBindSuccess _ _ k => (k =? fst e)%N | _ => false end) acts)) open1 in
+  let closed_here (e : N * (addr * addr * Z)) :=
+    existsb (fun a => match a with
+                      | TPeerClosed r p => addr_eqb p (snd (fst (snd e))) && opt_eqb addr_eqb (relay_of (fst (fst (snd e)))) (Some r)
+                      | _ => false end) acts in
+  let open3 := filter (fun e => negb (closed_here e)) open2 in
+  let open4 := match ts_ev o with TEnd c => filter (fun e => negb (addr_eqb (fst (fst (snd e))) c)) open3 | _ => open3 end in
+  (* the owner can bind a connection that is still open and unbound, within its 30 seconds *)
+  let owner_bind_ok := match ts_ev o with
+     | TConnBind _ _ (Some u) (Some k) =>
+         match find (fun e => (fst e =? k)%N) (k_open st) with
+         | Some e => if opt_eqb N.eqb (user_get (fst (fst (snd e))) (k_users st)) (Some u) && (now' <? snd (snd e) + bind_timeout)
+                     then existsb (fun a => match a with TBindSuccess _ _ k' => (k' =? k)%N | _ => false end) acts
+                     else true
+         | None => true end
+     | _ => true end in
+  (* and after 30 seconds an unbound connection is gone *)
+  let deadline_ok := forallb (fun e => now' <? snd (snd e) + bind_timeout) open4 in
   let st' := {| k_now := now';
                 k_users := match ts_ev o with TAlloc c u _ => (c, u) :: k_users st | TEnd c => filter (fun p => negb (addr_eqb (fst p) c)) (k_users st) | _ => k_users st end;
                 k_perms := match ts_ev o with TPerm c i => (c, i) :: k_perms st | TEnd c => filter (fun p => negb (addr_eqb (fst p) c)) (k_perms st) | _ => k_perms st end;
                 k_ann := anns ++ k_ann st;
                 k_bound := flat_map (fun a => match a with TBindSuccess _ _ k => [k] | _ => [] end) acts ++ k_bound st;
-                k_gone := k_gone st |} in
-  (no_block && fresh && attempts_ok && binds_ok && data_ok, st').
+                k_gone := k_gone st;
+                k_relays := match ts_ev o with TAlloc c _ r => (c, r) :: k_relays st | _ => k_relays st end;
+                k_open := open4 |} in
+  (no_block && fresh && attempts_ok && binds_ok && data_ok && owner_bind_ok && deadline_ok, st').
 
 Fixpoint holds_from (st : kst) (steps : list tstep_obs) : bool :=
   match steps with
@@ -87,7 +112,7 @@ Fixpoint holds_from (st : kst) (steps : list tstep_obs) : bool :=
 
 Definition run (c : case) : verdict :=
   (agree_from tinit (tc_steps c),
-   holds_from {| k_now := 0; k_users := []; k_perms := []; k_ann := []; k_bound := []; k_gone := [] |} (tc_steps c)).
+   holds_from {| k_now := 0; k_users := []; k_perms := []; k_ann := []; k_bound := []; k_gone := []; k_relays := []; k_open := [] |} (tc_steps c)).
 Definition bad_cases (base : N) (cs : list case) := bad_from run base cs.
 
 Fixpoint diag_from (s : tstate) (i : N) (steps : list tstep_obs) : option (N * tevent * list taction * list taction) :=
